@@ -12,7 +12,7 @@ ASAN_ENV = {"ASAN_OPTIONS": "exitcode=77:detect_leaks=0:abort_on_error=0:allocat
 
 
 class Step:
-    __slots__ = ("hid", "step", "op", "res", "conts", "al", "ev", "te", "oracle")
+    __slots__ = ("hid", "step", "op", "res", "conts", "al", "ev", "te", "oracle", "inj")
 
     def __init__(self):
         self.oracle = []
@@ -25,6 +25,7 @@ class Hist:
         self.crash = None
         self.end_oracle = []
         self.stderr_tail = ""
+        self.injected = []   # throwing-capable events the fault injection made throw, in order
 
     def failures(self):
         """List of (step index or None, property, message)."""
@@ -65,8 +66,12 @@ def parse_transcript(text):
             evte = parts[-1].split(" ")
             s.ev = evte[0][3:]
             s.te = int(evte[1][3:])
+            s.inj = evte[2][4:] if len(evte) > 2 and evte[2].startswith("inj=") else ""
             if s.hid in hists:
                 hists[s.hid].steps.append(s)
+        elif line.startswith("INJ "):
+            if cur is not None:
+                cur.injected.append(line[4:].strip())
         elif line.startswith("ORACLE "):
             _, hid, step, msg = line.split(" ", 3)
             h = hists.get(hid)
